@@ -136,6 +136,17 @@ def unjson_float(x):
     return x
 
 
+def decode_specials(obj):
+    """Inverse of the NaN/Infinity string encoding used by :func:`jsonable`."""
+    if isinstance(obj, dict):
+        return {k: decode_specials(v) for k, v in obj.items()}
+    if isinstance(obj, list):
+        return [decode_specials(v) for v in obj]
+    if isinstance(obj, str):
+        return unjson_float(obj)
+    return obj
+
+
 def farr(x):
     """JSON value (possibly with 'NaN'/'Infinity' strings) -> float array."""
 
